@@ -123,7 +123,7 @@ def cond(to):
 
 
 def eq(a, b, tol):
-    if a is None or b is None:
+    if a is None or b is None or isinstance(a, Exception) or isinstance(b, Exception):
         return False
     a, b = float(a), float(b)
     if math.isnan(a) or math.isnan(b):
